@@ -1,4 +1,5 @@
-// C08 harness: trees over a small name alphabet x 0..3 anchor-free regular expressions (generated as syntax trees
+// C08 harness: trees over a small name alphabet (plus dotted names, regex metacharacters and names related to the root /
+// destination / archive base names) x 0..3 anchor-free regular expressions (generated as syntax trees
 // and printed in Go syntax) x the nine exclusion-aware operations, on the in-memory and the OS back ends.
 // Oracle (independent of the Coq model, patterns evaluated with Go's regexp directly):
 //
@@ -141,6 +142,10 @@ func (r *Re) sepFree() bool {
 
 const alphabet = "abdx"
 
+// literal characters a pattern may also name: the dot of hidden / suffixed names, letters of the operation's other
+// arguments (root "t", destination "o", archive "out.zip"), a regex metacharacter (printed escaped)
+const extraPatChars = ".otz+"
+
 func chr(c byte) *Re   { return &Re{K: "chr", C: int(c)} }
 func cat(a, b *Re) *Re { return &Re{K: "cat", A: a, B: b} }
 func alt(a, b *Re) *Re { return &Re{K: "alt", A: a, B: b} }
@@ -160,6 +165,9 @@ func genRe(r *h.Run, depth int) *Re {
 	if depth <= 0 || k < 38 {
 		switch j := r.Rng.Intn(20); {
 		case j < 13:
+			if r.Rng.Intn(9) == 0 {
+				return chr(extraPatChars[r.Rng.Intn(len(extraPatChars))])
+			}
 			return chr(alphabet[r.Rng.Intn(len(alphabet))])
 		case j < 15:
 			return &Re{K: "any"}
@@ -293,7 +301,32 @@ func genName(r *h.Run) string {
 	return string(b)
 }
 
-func genTree(r *h.Run, depth int, budget *int) *Node {
+// names with dots in every position and with regex metacharacters (all legal on Linux and in a zip archive)
+var oddNames = []string{".a", ".b", "a.", ".a.b", "a..b", "..a", ".b.a", "...", ".x.", "d.", "a+b", "a(b", "[a]", "a$", "^a", "a*b", "a?b", "a|b", "a b", "{a}", "x.d", "b.a"}
+
+// namePool: names equal to / containing / contained in the names of the operation's other arguments, plus the odd names
+func namePool(r *h.Run, args ...string) []string {
+	pool := append([]string{}, oddNames...)
+	for _, x := range args {
+		pool = append(pool, x, x, "b"+x, x+".d", "ab"+x+".d", x+".sha256", "."+x, x+".")
+		if len(x) > 1 {
+			pool = append(pool, x[1:], x[:len(x)-1])
+		}
+	}
+	return pool
+}
+
+func genNameP(r *h.Run, pool []string) string {
+	if len(pool) > 0 && r.Rng.Intn(10) < 3 {
+		nm := pool[r.Rng.Intn(len(pool))]
+		if nm != "" && nm != "." && nm != ".." {
+			return nm
+		}
+	}
+	return genName(r)
+}
+
+func genTree(r *h.Run, depth int, budget *int, pool []string) *Node {
 	n := &Node{Dir: true}
 	nk := r.Rng.Intn(5)
 	if depth == 0 {
@@ -301,14 +334,14 @@ func genTree(r *h.Run, depth int, budget *int) *Node {
 	}
 	seen := map[string]bool{}
 	for i := 0; i < nk && *budget > 0; i++ {
-		nm := genName(r)
+		nm := genNameP(r, pool)
 		if seen[nm] {
 			continue
 		}
 		seen[nm] = true
 		*budget--
 		if depth < 3 && r.Rng.Intn(5) < 2 {
-			k := genTree(r, depth+1, budget)
+			k := genTree(r, depth+1, budget, pool)
 			k.Name = nm
 			n.Kids = append(n.Kids, k)
 		} else {
@@ -329,6 +362,7 @@ type Scenario struct {
 	Backend  string `json:"backend"`
 	RootName string `json:"root_name"`
 	DestName string `json:"dest_name"`
+	ZipName  string `json:"zip_name,omitempty"` // base name of the archive (default out.zip), written beside the root
 	Tree     *Node  `json:"tree"`
 	Pats     []Pat  `json:"pats"`
 }
@@ -484,7 +518,10 @@ func runScenario(r *h.Run, e *env, sc Scenario, emit bool) {
 	}
 	root := filepath.Join(w.base, sc.RootName)
 	dest := filepath.Join(w.base, sc.DestName)
-	zipPath := filepath.Join(w.base, "out.zip")
+	if sc.ZipName == "" {
+		sc.ZipName = "out.zip"
+	}
+	zipPath := filepath.Join(w.base, sc.ZipName)
 	if err := w.build(root, sc.Tree); err != nil {
 		r.Note("cannot build tree: " + err.Error())
 		return
@@ -806,18 +843,22 @@ func subSnap(s map[string]bool, name string) map[string]bool {
 
 // every operation on one (tree, patterns) pair
 func allOps(r *h.Run, e *env, backend, rootName, destName string, tree *Node, pats []Pat, emit bool) {
+	allOpsZ(r, e, backend, rootName, destName, "out.zip", tree, pats, emit)
+}
+
+func allOpsZ(r *h.Run, e *env, backend, rootName, destName, zipName string, tree *Node, pats []Pat, emit bool) {
 	for _, o := range ops {
 		if !tree.Dir && o.op != "remove" && o.op != "walk" && o.op != "lsrec" && !(o.op == "copy" && !o.flag) {
 			continue
 		}
-		runScenario(r, e, Scenario{Op: o.op, Flag: o.flag, Backend: backend, RootName: rootName, DestName: destName, Tree: tree, Pats: pats}, emit)
+		runScenario(r, e, Scenario{Op: o.op, Flag: o.flag, Backend: backend, RootName: rootName, DestName: destName, ZipName: zipName, Tree: tree, Pats: pats}, emit)
 	}
 }
 
 // ---------- matcher / IsPathExcludedFromPatterns correspondence ----------
 
 func matcherCases(r *h.Run, n int) {
-	chars := alphabet + "/"
+	chars := alphabet + "/.ot+"
 	for i := 0; i < n; i++ {
 		re := genRe(r, 3)
 		l := r.Rng.Intn(7)
@@ -844,7 +885,7 @@ func matcherCases(r *h.Run, n int) {
 }
 
 func exclCases(r *h.Run, n int) {
-	chars := alphabet + "/47"
+	chars := alphabet + "/47.o"
 	for i := 0; i < n; i++ {
 		np := r.Rng.Intn(3) + 1
 		var ps []Pat
@@ -871,13 +912,15 @@ func exclCases(r *h.Run, n int) {
 	}
 }
 
-func genPats(r *h.Run) []Pat {
+func genPats(r *h.Run, pool []string) []Pat {
 	var ps []Pat
 	n := r.Rng.Intn(4)
 	for i := 0; i < n; i++ {
 		switch k := r.Rng.Intn(20); {
 		case k == 0:
 			ps = append(ps, Pat{Kind: "blank", Text: blankTexts[r.Rng.Intn(len(blankTexts))]})
+		case k < 3:
+			ps = append(ps, good(word(genNameP(r, pool)))) // often a literal odd name, metacharacters escaped
 		case k < 8:
 			ps = append(ps, good(word(genName(r))))
 		default:
@@ -890,7 +933,8 @@ func genPats(r *h.Run) []Pat {
 func main() {
 	r := h.Init("C08")
 	r.Imports = []string{"GU.C08.Regex", "GU.C08.Model"}
-	r.Rule("trees (depth <= 4, names of 1..3 letters over {a,b,d,x}) x 0..3 anchor-free regexes (literals, classes, '.', * + ?, alternation, empty) " +
+	r.Rule("trees (depth <= 4, names of 1..3 letters over {a,b,d,x}; every other tree also draws names with leading/trailing/doubled dots, regex metacharacters, and names equal to / containing / contained in the root, destination and archive base names) " +
+		"x 0..3 anchor-free regexes (literals incl. escaped '.', '+' and letters of the other arguments, classes, '.', * + ?, alternation, empty; every fifth tree with NO pattern) " +
 		"x 11 calls (walk, ls, lsrec with/without directories, listtree, subdirs, copy to a fresh / into an existing destination, zip, remove, clean) " +
 		"on the in-memory back end and (every fourth tree) the OS back end; plus an invalid/blank-pattern stream. " +
 		"non-trivial = the tree has both an entry with a fully matched component and an entry without any match; distinct by (op, backend, tree, patterns).")
@@ -961,6 +1005,24 @@ func main() {
 		allOps(r, e, "mem", c.root, c.dest, c.tree, c.pats, true)
 	}
 	allOps(r, e, "os", "t", "o", deep, []Pat{good(word("ab"))}, true)
+	// names with dots in every position, regex metacharacters, and names equal to / containing / contained in the names
+	// of the operation's other arguments (root t, destination o, archive out.zip): with NO pattern every operation must
+	// process all of them; with patterns exactly those the patterns name are left out
+	rich := dir("", dir(".a", file("x"), file(".b")), dir(".b.a", file("a")), dir("a", file("a."), file("out.zip")),
+		dir("b", file("out.zip"), file("out.zip.sha256"), dir("o", file("t")), dir("t", file("o"))),
+		dir("about.zip.d", file("x")), dir("out.zip", file("ut.zi")), file("a..b"), file("..a"), file("..."), file("t"), file("o"), file("out"), file("zip"),
+		file("a+b"), dir("[a]", file("a$")), file("a(b"), file("^a"), file("a b"), file("a*b"), file("a|b"), file("a?b"))
+	richPats := [][]Pat{nil, {good(word("b"))}, {good(chr('.'))}, {good(word("out.zip"))}, {good(word(".a"))}, {good(&Re{K: "plus", A: chr('a')})},
+		{good(word("a+b")), good(word("a$"))}, {good(alt(chr('t'), chr('o')))}}
+	for i, ps := range richPats {
+		allOps(r, e, "mem", "t", "o", rich, ps, true)
+		if i < 2 {
+			allOps(r, e, "os", "t", "o", rich, ps, true)
+		}
+	}
+	// the archive / destination / root carry other names
+	allOpsZ(r, e, "mem", ".t", ".o", "ab.zip", dir("", file("ab.zip"), dir("xab.zip.d", file("ab")), dir(".o", file(".t")), file("b.zi")), nil, true)
+	allOpsZ(r, e, "mem", "t.d", "o.d", ".x.zip", dir("", dir(".x.zip", file("t.d")), file("x.zip"), dir("o.d", file("d"))), []Pat{good(word("d"))}, true)
 	// invalid patterns: every operation, bad pattern first / last / alone, on empty and non-empty roots
 	for i, t := range []string{"[", "a(", "a**", "(?P<x"} {
 		bad := Pat{Kind: "bad", Text: t}
@@ -980,9 +1042,22 @@ func main() {
 	nTrees := r.N(70, 900)
 	for i := 0; i < nTrees; i++ {
 		budget := 4 + r.Rng.Intn(14)
-		tree := genTree(r, 0, &budget)
-		pats := genPats(r)
-		rootName, destName := "t", "o"
+		rootName, destName, zipName := "t", "o", "out.zip"
+		switch r.Rng.Intn(6) {
+		case 0:
+			zipName = genName(r) + ".zip"
+		case 1:
+			zipName = "." + genName(r)
+		}
+		var pool []string
+		if i%2 == 1 {
+			pool = namePool(r, "t", "o", zipName)
+		}
+		tree := genTree(r, 0, &budget, pool)
+		pats := genPats(r, pool)
+		if i%5 == 4 {
+			pats = nil // zero-pattern run of every operation
+		}
 		switch r.Rng.Intn(8) {
 		case 0:
 			rootName = genName(r)
@@ -1000,6 +1075,9 @@ func main() {
 		if destName == rootName {
 			destName = "o"
 		}
+		if zipName == rootName || zipName == destName {
+			zipName = "out.zip"
+		}
 		if len(pats) > 3 {
 			pats = pats[len(pats)-3:]
 		}
@@ -1011,7 +1089,7 @@ func main() {
 		if i%4 == 3 {
 			be = "os"
 		}
-		allOps(r, e, be, rootName, destName, tree, pats, r.NCases() < r.N(1150, 5000))
+		allOpsZ(r, e, be, rootName, destName, zipName, tree, pats, r.NCases() < r.N(1150, 5000))
 	}
 	matcherCases(r, r.N(200, 2000))
 	exclCases(r, r.N(120, 1000))
